@@ -27,7 +27,7 @@ Non-trivial = at least two requests with different expected responses in flight 
 }
 
 pub fn pool_request(k: u16) -> Vec<u8> {
-    let paths = ["/a.txt", "/big.bin", "/page.html", "/page", "/sub/", "/sub/x.json", "/sub/deep/y.png", "/noext", "/link.txt", "/outdir/f.txt", "/", "/style.css", "/missing", "/noindex/", "/empty.bin", "/é.txt"];
+    let paths = ["/a.txt", "/big.bin", "/page.html", "/page", "/sub/", "/sub/x.json", "/sub/deep/y.png", "/noext", "/link.txt", "/outdir/f.txt", "/", "/style.css", "/missing", "/noindex/", "/empty.bin", "/é.txt", "/sub/rel.json", "/sub/deep/up.txt"];
     let i = k as usize;
     match i % 16 {
         0..=5 => format!("GET {} HTTP/1.1\r\nHost: localhost\r\n\r\n", paths[(i / 16) % paths.len()]).into_bytes(),
